@@ -3,47 +3,92 @@
    is a macro parameter; the translator checks that the configured instances are the invocations of the source), the ToBytes
    impls they call (core/src/pixelcolor/raw/to_bytes.rs) and Framebuffer::new, regenerated from the source on every run by
    translate/r2c (coq/Gen/SrcToBytes.v, coq/Gen/SrcFbSetPixelBytes.v).  `self.data[i..i + N].copy_from_slice(&bytes)` is
-   Casts.slice_copy (unchanged when the range is outside the buffer or the lengths differ, where Rust panics).  The data
-   afterwards equals Framebuffer.fb_set_pixel when the buffer covers WIDTH x HEIGHT pixels (buf_ok; C10 proves N >= that).
+   Casts.slice_copy under the test Casts.slice_copy_ok: the generated set_pixel is option-valued, None = Rust's panic when the
+   range is outside the buffer.  It panics exactly when the point is inside the framebuffer and the byte range ends outside
+   the data; otherwise (always when buf_ok; C10 proves N >= that) the data afterwards equals Framebuffer.fb_set_pixel.
    Not covered: Framebuffer::as_image (`.unwrap()` of a Result).  Statements only (proofs: Proofs/SrcFbSetPixelBytes.v). *)
 From EG Require Import Base.Prelude Base.Casts Model.Geometry Model.Rawdata Model.Framebuffer.
-From EG Require Import Gen.SrcGeometry Gen.SrcRawData Gen.SrcToBytes Gen.SrcFbSetPixel Gen.SrcFbSetPixelBytes Proofs.SrcFbSetPixelBytes.
+From EG Require Import Gen.SrcGeometry Gen.SrcRawData Gen.SrcToBytes Gen.SrcFbSetPixel Gen.SrcFbSetPixelBytes Proofs.SrcFbSetPixel Proofs.SrcFbSetPixelBytes.
 
+(* in_fb W H p: p is inside the framebuffer; bytes_end t W p: end of the byte range written.  None (panic) exactly when p is
+   inside and the range ends outside the data array; never when buf_ok (the `_never_panics` theorems). *)
 Theorem C10_src_set_pixel_RawU16_le_is_model : forall W H into fb p c,
-  0 <= W -> i32_min <= px p <= i32_max -> i32_min <= py p <= i32_max -> buf_ok U16 W H (Framebuffer_data fb) ->
-  Framebuffer_data (src_Framebuffer_set_pixel_RawU16_le W H into fb p c)
-  = fb_set_pixel (FbCfg U16 false W H) (Framebuffer_data fb) (px p, py p) (into c).
+  i32_min <= px p <= i32_max -> i32_min <= py p <= i32_max ->
+  src_Framebuffer_set_pixel_RawU16_le W H into fb p c
+  = if in_fb W H p && negb (bytes_end U16 W p <=? Z.of_nat (length (Framebuffer_data fb)))
+    then None
+    else Some (Build_Framebuffer (fb_set_pixel (FbCfg U16 false W H) (Framebuffer_data fb) (px p, py p) (into c)) (Framebuffer_n_assert fb)).
 Proof. exact src_fb_set_pixel_RawU16_le_eq. Qed.
+Theorem C10_src_set_pixel_RawU16_le_never_panics : forall W H into fb p c,
+  i32_min <= px p <= i32_max -> i32_min <= py p <= i32_max -> buf_ok U16 W H (Framebuffer_data fb) ->
+  src_Framebuffer_set_pixel_RawU16_le W H into fb p c
+  = Some (Build_Framebuffer (fb_set_pixel (FbCfg U16 false W H) (Framebuffer_data fb) (px p, py p) (into c)) (Framebuffer_n_assert fb)).
+Proof. exact src_fb_set_pixel_RawU16_le_some. Qed.
 
 Theorem C10_src_set_pixel_RawU16_be_is_model : forall W H into fb p c,
-  0 <= W -> i32_min <= px p <= i32_max -> i32_min <= py p <= i32_max -> buf_ok U16 W H (Framebuffer_data fb) ->
-  Framebuffer_data (src_Framebuffer_set_pixel_RawU16_be W H into fb p c)
-  = fb_set_pixel (FbCfg U16 true W H) (Framebuffer_data fb) (px p, py p) (into c).
+  i32_min <= px p <= i32_max -> i32_min <= py p <= i32_max ->
+  src_Framebuffer_set_pixel_RawU16_be W H into fb p c
+  = if in_fb W H p && negb (bytes_end U16 W p <=? Z.of_nat (length (Framebuffer_data fb)))
+    then None
+    else Some (Build_Framebuffer (fb_set_pixel (FbCfg U16 true W H) (Framebuffer_data fb) (px p, py p) (into c)) (Framebuffer_n_assert fb)).
 Proof. exact src_fb_set_pixel_RawU16_be_eq. Qed.
+Theorem C10_src_set_pixel_RawU16_be_never_panics : forall W H into fb p c,
+  i32_min <= px p <= i32_max -> i32_min <= py p <= i32_max -> buf_ok U16 W H (Framebuffer_data fb) ->
+  src_Framebuffer_set_pixel_RawU16_be W H into fb p c
+  = Some (Build_Framebuffer (fb_set_pixel (FbCfg U16 true W H) (Framebuffer_data fb) (px p, py p) (into c)) (Framebuffer_n_assert fb)).
+Proof. exact src_fb_set_pixel_RawU16_be_some. Qed.
 
 Theorem C10_src_set_pixel_RawU24_le_is_model : forall W H into fb p c,
-  0 <= W -> i32_min <= px p <= i32_max -> i32_min <= py p <= i32_max -> buf_ok U24 W H (Framebuffer_data fb) ->
-  Framebuffer_data (src_Framebuffer_set_pixel_RawU24_le W H into fb p c)
-  = fb_set_pixel (FbCfg U24 false W H) (Framebuffer_data fb) (px p, py p) (into c).
+  i32_min <= px p <= i32_max -> i32_min <= py p <= i32_max ->
+  src_Framebuffer_set_pixel_RawU24_le W H into fb p c
+  = if in_fb W H p && negb (bytes_end U24 W p <=? Z.of_nat (length (Framebuffer_data fb)))
+    then None
+    else Some (Build_Framebuffer (fb_set_pixel (FbCfg U24 false W H) (Framebuffer_data fb) (px p, py p) (into c)) (Framebuffer_n_assert fb)).
 Proof. exact src_fb_set_pixel_RawU24_le_eq. Qed.
+Theorem C10_src_set_pixel_RawU24_le_never_panics : forall W H into fb p c,
+  i32_min <= px p <= i32_max -> i32_min <= py p <= i32_max -> buf_ok U24 W H (Framebuffer_data fb) ->
+  src_Framebuffer_set_pixel_RawU24_le W H into fb p c
+  = Some (Build_Framebuffer (fb_set_pixel (FbCfg U24 false W H) (Framebuffer_data fb) (px p, py p) (into c)) (Framebuffer_n_assert fb)).
+Proof. exact src_fb_set_pixel_RawU24_le_some. Qed.
 
 Theorem C10_src_set_pixel_RawU24_be_is_model : forall W H into fb p c,
-  0 <= W -> i32_min <= px p <= i32_max -> i32_min <= py p <= i32_max -> buf_ok U24 W H (Framebuffer_data fb) ->
-  Framebuffer_data (src_Framebuffer_set_pixel_RawU24_be W H into fb p c)
-  = fb_set_pixel (FbCfg U24 true W H) (Framebuffer_data fb) (px p, py p) (into c).
+  i32_min <= px p <= i32_max -> i32_min <= py p <= i32_max ->
+  src_Framebuffer_set_pixel_RawU24_be W H into fb p c
+  = if in_fb W H p && negb (bytes_end U24 W p <=? Z.of_nat (length (Framebuffer_data fb)))
+    then None
+    else Some (Build_Framebuffer (fb_set_pixel (FbCfg U24 true W H) (Framebuffer_data fb) (px p, py p) (into c)) (Framebuffer_n_assert fb)).
 Proof. exact src_fb_set_pixel_RawU24_be_eq. Qed.
+Theorem C10_src_set_pixel_RawU24_be_never_panics : forall W H into fb p c,
+  i32_min <= px p <= i32_max -> i32_min <= py p <= i32_max -> buf_ok U24 W H (Framebuffer_data fb) ->
+  src_Framebuffer_set_pixel_RawU24_be W H into fb p c
+  = Some (Build_Framebuffer (fb_set_pixel (FbCfg U24 true W H) (Framebuffer_data fb) (px p, py p) (into c)) (Framebuffer_n_assert fb)).
+Proof. exact src_fb_set_pixel_RawU24_be_some. Qed.
 
 Theorem C10_src_set_pixel_RawU32_le_is_model : forall W H into fb p c,
-  0 <= W -> i32_min <= px p <= i32_max -> i32_min <= py p <= i32_max -> buf_ok U32 W H (Framebuffer_data fb) ->
-  Framebuffer_data (src_Framebuffer_set_pixel_RawU32_le W H into fb p c)
-  = fb_set_pixel (FbCfg U32 false W H) (Framebuffer_data fb) (px p, py p) (into c).
+  i32_min <= px p <= i32_max -> i32_min <= py p <= i32_max ->
+  src_Framebuffer_set_pixel_RawU32_le W H into fb p c
+  = if in_fb W H p && negb (bytes_end U32 W p <=? Z.of_nat (length (Framebuffer_data fb)))
+    then None
+    else Some (Build_Framebuffer (fb_set_pixel (FbCfg U32 false W H) (Framebuffer_data fb) (px p, py p) (into c)) (Framebuffer_n_assert fb)).
 Proof. exact src_fb_set_pixel_RawU32_le_eq. Qed.
+Theorem C10_src_set_pixel_RawU32_le_never_panics : forall W H into fb p c,
+  i32_min <= px p <= i32_max -> i32_min <= py p <= i32_max -> buf_ok U32 W H (Framebuffer_data fb) ->
+  src_Framebuffer_set_pixel_RawU32_le W H into fb p c
+  = Some (Build_Framebuffer (fb_set_pixel (FbCfg U32 false W H) (Framebuffer_data fb) (px p, py p) (into c)) (Framebuffer_n_assert fb)).
+Proof. exact src_fb_set_pixel_RawU32_le_some. Qed.
 
 Theorem C10_src_set_pixel_RawU32_be_is_model : forall W H into fb p c,
-  0 <= W -> i32_min <= px p <= i32_max -> i32_min <= py p <= i32_max -> buf_ok U32 W H (Framebuffer_data fb) ->
-  Framebuffer_data (src_Framebuffer_set_pixel_RawU32_be W H into fb p c)
-  = fb_set_pixel (FbCfg U32 true W H) (Framebuffer_data fb) (px p, py p) (into c).
+  i32_min <= px p <= i32_max -> i32_min <= py p <= i32_max ->
+  src_Framebuffer_set_pixel_RawU32_be W H into fb p c
+  = if in_fb W H p && negb (bytes_end U32 W p <=? Z.of_nat (length (Framebuffer_data fb)))
+    then None
+    else Some (Build_Framebuffer (fb_set_pixel (FbCfg U32 true W H) (Framebuffer_data fb) (px p, py p) (into c)) (Framebuffer_n_assert fb)).
 Proof. exact src_fb_set_pixel_RawU32_be_eq. Qed.
+Theorem C10_src_set_pixel_RawU32_be_never_panics : forall W H into fb p c,
+  i32_min <= px p <= i32_max -> i32_min <= py p <= i32_max -> buf_ok U32 W H (Framebuffer_data fb) ->
+  src_Framebuffer_set_pixel_RawU32_be W H into fb p c
+  = Some (Build_Framebuffer (fb_set_pixel (FbCfg U32 true W H) (Framebuffer_data fb) (px p, py p) (into c)) (Framebuffer_n_assert fb)).
+Proof. exact src_fb_set_pixel_RawU32_be_some. Qed.
 
 Theorem C10_src_to_bytes_is_model : forall v,
   (let '(a, b) := src_RawU16_to_le_bytes v in [a; b]) = encode_bytes U16 false v /\
@@ -58,7 +103,8 @@ Theorem C10_src_new_is_model : forall n, 0 <= n -> Framebuffer_data (src_Framebu
 Proof. exact src_fb_new_eq. Qed.
 
 Example C10_src_setpixel_bytes_nonvacuous :
-  Framebuffer_data (src_Framebuffer_set_pixel_RawU16_be 2 2 (fun c => c) (Build_Framebuffer [0; 0; 0; 0; 0; 0; 0; 0] tt) (P 1 0) 258) = [0; 0; 1; 2; 0; 0; 0; 0] /\
-  Framebuffer_data (src_Framebuffer_set_pixel_RawU24_le 2 1 (fun c => c) (Build_Framebuffer [9; 9; 9; 9; 9; 9] tt) (P 1 0) 66051) = [9; 9; 9; 3; 2; 1] /\
-  Framebuffer_data (src_Framebuffer_set_pixel_RawU32_le 2 1 (fun c => c) (Build_Framebuffer [9; 9; 9; 9; 9; 9] tt) (P 1 0) 1) = [9; 9; 9; 9; 9; 9].
+  option_map Framebuffer_data (src_Framebuffer_set_pixel_RawU16_be 2 2 (fun c => c) (Build_Framebuffer [0; 0; 0; 0; 0; 0; 0; 0] tt) (P 1 0) 258) = Some [0; 0; 1; 2; 0; 0; 0; 0] /\
+  option_map Framebuffer_data (src_Framebuffer_set_pixel_RawU24_le 2 1 (fun c => c) (Build_Framebuffer [9; 9; 9; 9; 9; 9] tt) (P 1 0) 66051) = Some [9; 9; 9; 3; 2; 1] /\
+  src_Framebuffer_set_pixel_RawU32_le 2 1 (fun c => c) (Build_Framebuffer [9; 9; 9; 9; 9; 9] tt) (P 1 0) 1 = None /\
+  option_map Framebuffer_data (src_Framebuffer_set_pixel_RawU32_le 2 1 (fun c => c) (Build_Framebuffer [9; 9; 9; 9; 9; 9] tt) (P 2 0) 1) = Some [9; 9; 9; 9; 9; 9].
 Proof. repeat split; vm_compute; reflexivity. Qed.
